@@ -7,7 +7,7 @@
    input    = (mode codec cipher ocap icap ecap hw hr senders closers input peerread
                inconsumer seed script closeafter latesend [(failafter immediate maxprocs readtimeout lateinput waitinput smallbuf)])
    observed = (oracle inoracle events results wire (garbage eof peererr nofin peerreset) counters delivered
-               (badendpoint foreign) (errgot errforeign) closeres (panics state doneclosed)
+               (badendpoint foreign statsbad) (errgot errforeign errkind) closeres (panics state doneclosed)
                (inconclusive stuck pumpafterwait) late) *)
 From Coq Require Import ZArith List Bool Arith.
 From FV Require Import Lib.Sx C03.Model.
@@ -34,8 +34,8 @@ Record obs := mkobs {
   o_garbage : Z; o_eof : Z; o_peererr : Z; o_nofin : Z; o_peerreset : Z;
   o_counters : list Z;
   o_delivered : list Z;
-  o_badendpoint : Z; o_foreign : Z;
-  o_errgot : Z; o_errforeign : Z;
+  o_badendpoint : Z; o_foreign : Z; o_statsbad : Z;
+  o_errgot : Z; o_errforeign : Z; o_errkind : Z;
   o_closeres : list Z;
   o_panics : Z; o_state : Z; o_doneclosed : Z;
   o_inconcl : Z; o_stuck : Z; o_pumpafterwait : Z;
@@ -79,14 +79,14 @@ Definition decode_scen (s : sx) : option scen :=
 Definition decode_obs (s : sx) : option obs :=
   match s with
   | SList [orc; inorc; evs; res; wire; SList (SInt garbage :: SInt eof :: SInt peererr :: fl); cnt; deliv;
-           SList [SInt badep; SInt foreign]; SList [SInt errgot; SInt errforeign]; cres;
+           SList (SInt badep :: SInt foreign :: r8); SList (SInt errgot :: SInt errforeign :: r9); cres;
            SList [SInt panics; SInt state; SInt doneclosed]; SList [SInt inconcl; SInt stuck; SInt paw]; late] =>
       match sx_listof sx_oracle orc, sx_listof sx_pair inorc, sx_listof sx_quad evs,
             sx_listof (sx_listof sx_pair) res, sx_listof sx_triple wire, sx_ints cnt, sx_ints deliv,
             sx_ints cres, sx_ints late with
       | Some orc, Some inorc, Some evs, Some res, Some wire, Some cnt, Some deliv, Some cres, Some late =>
           Some (mkobs orc inorc evs res wire garbage eof peererr (match fl with SInt n :: _ => n | _ => 0 end)
-                      (match fl with _ :: SInt r :: _ => r | _ => 0 end) cnt deliv badep foreign errgot errforeign
+                      (match fl with _ :: SInt r :: _ => r | _ => 0 end) cnt deliv badep foreign (match r8 with SInt b :: _ => b | _ => 0 end) errgot errforeign (match r9 with SInt k :: _ => k | _ => 0 end)
                       cres panics state doneclosed inconcl stuck paw late)
       | _, _, _, _, _, _, _, _, _ => None
       end
@@ -127,7 +127,7 @@ Definition init_of (sc : scen) (o : obs) : st :=
        (if sc_ecap sc <? 0 then 0%nat else Z.to_nat (sc_ecap sc)) (sc_ecap sc <? 0)
        (sc_hw sc) (sc_hr sc)
        (map (map (pkt_of o)) (sc_senders sc))
-       (map (fun g : bool => (g, if g then 1 else 2)) (sc_closers sc))
+       (map (fun g : bool => (g, if g then 101 else 102)) (sc_closers sc))
        (map (inp_of o) (sc_input sc)) [] [].
 
 (* ---------------------------------------------------------------- events -> choices *)
@@ -355,7 +355,11 @@ Definition compare_final (sc : scen) (o : obs) (s : st) (pend : list (Z * Z * Z 
  (vjoin (check_that (list_eqb (list_eqb pair_eqb) (map results (senders s)) (o_results o)) (VMismatch 3))
  (vjoin (check_that (loose || zeqb_list [psent s; bsent s; precv s; brecv s] (o_counters o)) (VMismatch 4))
  (vjoin (check_that (zeqb_list (map pid (delivered s)) (o_delivered o)) (VMismatch 5))
- (vjoin (check_that (Z.of_nat (length (notified s)) =? o_errgot o) (VMismatch 6))
+ (vjoin (check_that ((Z.of_nat (length (notified s)) =? o_errgot o)
+                     && match notified s with
+                        | e :: _ => (o_errkind o mod 10) =? (if e =? 101 then 1 else if e =? 102 then 2 else 3)
+                        | [] => true
+                        end) (VMismatch 6))
         (check_that ((cst_code (cst s) =? o_state o) && Bool.eqb (done s) (o_doneclosed o =? 1)
                      && (negb (o_eof o =? 1) || fin s) && negb (panic s)) (VMismatch 7))))))).
 
